@@ -26,10 +26,69 @@ L3 (thorough; a few sessions in quick) pty: random printable-Unicode key sequenc
       Enter, then a sentinel command must be answered.
 No own known class is left (the empty-command panic is repaired in /repo by baff407 and the planner model follows
 it: theorem C05_full). One foreign class of Model/C05Classes.v (C19 calculator recursion depth) is mirrored here and
-compared with the extracted version."""
-import itertools, os, re, shutil, subprocess, tempfile, time
+compared with the extracted version.
+Round 9 -- PANIC-SITE TIE: gen() re-scans the anchored Rust files of C.REPO with tools/panicsites.py (index / slice / unwrap /
+      expect / panicking macros / Vec-String remove-insert-drain-splice-split / non-literal divisors / integer casts /
+      regex constructions / length bindings and comparisons that guard the above) and compares with the pinned, annotated
+      inventory pins/C05-panicsites.json.  A site that is not in the pin = the tie between model and code is broken THERE:
+      the search is directed at the function that contains it (larger exhaustive sizes for the layer that reaches it);
+      a failing input -> ordinary VIOLATION; none -> VIOLATION kind=tie, no-failing-input-found."""
+import itertools, json, os, re, shutil, subprocess, sys, tempfile, time
 from concurrent.futures import ThreadPoolExecutor
 import common as C
+sys.path.insert(0, os.path.join(C.VERIF, "tools"))
+import panicsites  # noqa
+
+PIN_SITES = os.path.join(C.VERIF, "pins", "C05-panicsites.json")
+
+
+def scan_sites():
+    """-> {"new": [...], "removed": [...], "n_pinned": n, "n_current": n, "focus": [tags], "error": str?}"""
+    pinned = json.load(open(PIN_SITES))
+    out = {"n_pinned": len(pinned), "new": [], "removed": [], "focus": []}
+    try:
+        cur = panicsites.inventory(C.REPO)
+    except (panicsites.ScanError, OSError, UnicodeDecodeError, IndexError, StopIteration) as e:
+        # a file the scanner cannot read any more: nothing is known about ANY of its sites -> search everywhere
+        out["error"] = "%s: %s" % (type(e).__name__, e)
+        out["focus"] = sorted(set(t for v in FOCUS_BY_FILE.values() for t in v))
+        return out
+    out["n_current"] = len(cur)
+    new, removed = panicsites.diff(pinned, cur)
+    strip = lambda d: {k: d[k] for k in ("file", "function", "kind", "expr", "ordinal")}
+    out["new"], out["removed"] = [strip(d) for d in new], [dict(strip(d), disposition=d.get("disposition")) for d in removed]
+    out["focus"] = sorted(set(t for d in new for t in focus_of(d)))
+    return out
+
+
+# which search reaches the function that contains a new site
+FOCUS_BY_FILE = {"src/parsers/parser_line.rs": ["tok"], "src/types.rs": ["toklists", "tok", "expand"], "src/shell.rs": ["expand"],
+                 "src/highlight.rs": ["hl"], "src/completers/mod.rs": ["hl"], "src/calculator/mod.rs": ["calc"],
+                 "src/core.rs": ["l2", "toklists"], "src/tools.rs": ["l2", "expand", "calc"], "src/libs/re.rs": ["l2", "expand"],
+                 "src/execute.rs": ["l2"], "src/scripting.rs": ["l2"]}
+
+
+def focus_of(d):
+    fn = d["function"].split("::")[-1]
+    if d["file"] == "src/shell.rs" and fn == "expand_alias":
+        return ["alias"]
+    if d["file"] == "src/parsers/parser_line.rs" and fn in ("tokens_to_redirections", "unquote"):
+        return ["toklists", "tok"]
+    if d["file"] == "src/core.rs" and "calculator" in fn:
+        return ["calc"]
+    if d["file"] == "src/shell.rs" and d["function"].startswith("Shell::"):
+        return ["l2"]
+    return FOCUS_BY_FILE.get(d["file"], ["l2"])
+
+
+def gen(ctx):
+    """round 9: the panic-site inventory of the CURRENT source against the pinned one (no Coq file is generated)"""
+    ctx.panic_sites = scan_sites()
+
+
+def big(ctx, tag):
+    """thorough sizes for a layer: in a thorough run, or when a new panic site directs the search there"""
+    return ctx.thorough or tag in getattr(ctx, "focus", ())
 
 EXTRACT = ["C05"]
 BINS = ["c05"]
@@ -251,7 +310,7 @@ def layer1c(ctx, res, vv):
     rng = ctx.rng
     model, impl = ctx.model["C05"], ctx.bins["c05"]
     cases, desc = [], []
-    for _ in range(60000 if ctx.thorough else 12000):
+    for _ in range(60000 if big(ctx, "hl") else 12000):
         line = "".join(rng.choice(HL12) for _ in range(rng.randint(0, 7)))
         nb = len(line.encode())
         start = rng.randint(0, nb + 2)
@@ -290,9 +349,11 @@ def layer1d(ctx, res, vv):
     lists = []
     for n in range(0, 5):                                  # every untagged list up to 4 tokens (4,681)
         lists += [[("", w) for w in t] for t in itertools.product(TOKWORDS, repeat=n)]
-    for n in range(1, (4 if ctx.thorough else 3) + 1):     # with quoted tokens mixed in
+    for n in range(1, (4 if big(ctx, "toklists") else 3) + 1):     # with quoted tokens mixed in
         lists += [list(t) for t in itertools.product(syms, repeat=n) if any(tg for tg, _ in t)]
-    for _ in range(20000 if ctx.thorough else 4000):
+    if "toklists" in getattr(ctx, "focus", ()):            # directed: every untagged list of 5 tokens too (32,768)
+        lists += [[("", w) for w in t] for t in itertools.product(TOKWORDS, repeat=5)]
+    for _ in range(20000 if big(ctx, "toklists") else 4000):
         lists.append([rng.choice(syms) for _ in range(rng.randint(4, 7))])
     cases = []
     for l in lists:
@@ -349,7 +410,7 @@ def layer1e(ctx, res, vv):
     sites (theorem C05_alias_total); and the same tables through the whole `line` pipeline."""
     model, impl = ctx.model["C05"], ctx.bins["c05"]
     tabs = alias_tables()
-    if ctx.thorough:
+    if big(ctx, "alias"):
         short = all_strings(A14, 3) + [x for x in all_strings(A14, 4) if len(x) == 4 and ("a" in x or "1" in x)]
     else:
         short = all_strings(A14, 2) + [x for x in all_strings(A14, 3) if len(x) == 3 and ("a" in x or "1" in x)]
@@ -383,11 +444,57 @@ def layer1e(ctx, res, vv):
     # whole pipeline under the same tables
     plines, ptabs = [], []
     for t in tabs:
-        for l in all_strings(A14, 2 if not ctx.thorough else 3) + target:
+        for l in all_strings(A14, 2 if not big(ctx, "alias") else 3) + target:
             if "a" in l or "1" in l:
                 plines.append(l)
                 ptabs.append(t)
     layer1a(ctx, res, vv, plines, "ALIAS", tables=ptabs)
+
+
+def layer_front(ctx, res, vv, lines, tag):
+    """directed (round 9): splitter + tokenizer + is_arithmetic alone, model = implementation, on every given string"""
+    model, impl = ctx.model["C05"], ctx.bins["c05"]
+    cases = [C.case("front", s) for s in lines]
+    p = C.write_cases("c05_frontd_%s.txt" % tag, cases)
+    io = C.run_impl(impl, p, len(lines), env={"HX_CASE_TIMEOUT_MS": "2500"})
+    io = confirm_abnormal(impl, cases, io, "fd" + tag)
+    mo = C.run_model(model, p)
+    for s, a, b in zip(lines, mo, io):
+        if a == b:
+            continue
+        if b in ("PANIC", "HANG", "CRASH", "NOT-RUN"):
+            vv.violate("L1f", kind="oracle", function="line_to_cmds / parse_line / is_arithmetic", input=s, model=a, observed=b,
+                       failing_input=True, note="the splitter / tokenizer %s on this line; the model (C05_tokenizer_lookups, "
+                                                "structural tokenizer) cannot" % b)
+        else:
+            vv.violate("L1f", kind="correspondence", function="line_to_cmds / parse_line / is_arithmetic", input=s, model=a, impl=b,
+                       failing_input=False, note="splitter or tokenizer differs from the model the C05 totality theorems are about")
+    res.count("L1f_directed_front_" + tag, len(lines))
+
+
+CALC12 = ["1", "9", " ", "+", "-", "*", "/", "^", "(", ")", ".", "0"]
+CALC_LIMITS = ["2^63/-1", "-9223372036854775808 / -1", "(0-9223372036854775807-1)/(0-1)", "(9223372036854775807 + 1) / (1 - 2)",
+               "2^63 * -1", "9223372036854775807 * 9223372036854775807", "0 - 9223372036854775807 - 2", "1 / (1 - 1)", "2^63 ^ 2",
+               "(0-2) ^ 63", "(0-2) ^ 64", "0 ^ 0", "1.0 / 0", "2^63 / -1.0", "7 / -1", "2 ^ -1", "2 ^ 4294967296", "1 % 0", "1 / 0.0",
+               "9223372036854775807 + 1", "99999999999999999999 + 1", "1e5 + 1", "1..2 + 1", "1. + .1", "(1)(2) + 1", "1 +- 2", "2 ^ 2 ^ 2 ^ 2 ^ 2"]
+
+
+def layer_calc(ctx, res, vv):
+    """directed (round 9): every string up to length 5 over CALC12 + the i64 limit lines through is_arithmetic and, when it says
+    yes, the real calculator (op misc)"""
+    impl = ctx.bins["c05"]
+    lines = all_strings(CALC12, 5) + CALC_LIMITS
+    for a in CALC_LIMITS:
+        for b in ("+", "-", "*", "/", "^"):
+            lines.append("(%s) %s (%s)" % (a, b, ctx.rng.choice(CALC_LIMITS)))
+    cases = [C.case("misc", s) for s in lines]
+    p = C.write_cases("c05_calcd.txt", cases)
+    io = C.run_impl(impl, p, len(lines), env={"HX_CASE_TIMEOUT_MS": "2500"})
+    io = confirm_abnormal(impl, cases, io, "calcd")
+    for s, b in zip(lines, io):
+        if b in ("PANIC", "HANG", "CRASH", "NOT-RUN"):
+            vv.foreign("L1g", s, b, b)
+    res.count("L1g_directed_calculator", len(lines))
 
 
 # ------------------------------------------------------------------ L2
@@ -483,7 +590,7 @@ def layer2(ctx, res, vv, work):
         short = all_strings(A14, 4)
     else:   # quick: every string up to 2 and a seeded third of those of length 3 (two process spawns per line)
         short = all_strings(A14, 2) + ctx.rng.sample(["".join(t) for t in itertools.product(A14, repeat=3)], 1500)
-    rnd = gen_l2_lines(ctx, 6000 if ctx.thorough else 600)
+    rnd = gen_l2_lines(ctx, 6000 if ctx.thorough else 3000 if big(ctx, "l2") else 600)
     corpus = ["> f", "< f", "2>&1", "echo a | > f", "a>b>c", "A=1 > f", "echo $(<)", "echo {2147483646..2147483647}",
               "99999999999999999999 + 1", "2 ^ 64", "A='$A'; echo $A", "echo \"a\n$HOME\"", "echo $(ls >)", "echo ${A",
               "echo `>`", "echo a | cat <<< x", "echo 'unbalanced", "echo \"unbalanced", "echo $(", "echo ((1)", "a && && b", "| a",
@@ -747,6 +854,13 @@ def run(ctx, res):
     known = {k["class"]: k for k in C.known_findings("C05")}
     vv = V(res, known)
     n1 = 5 if ctx.thorough else 4
+    ps = getattr(ctx, "panic_sites", None) or scan_sites()
+    ctx.focus = set(ps["focus"])
+    res.extra["panic_sites"] = {k: ps.get(k) for k in ("n_pinned", "n_current", "error") if ps.get(k) is not None}
+    res.extra["panic_sites_new"] = ps["new"]
+    res.extra["panic_sites_removed"] = ps["removed"]
+    res.extra["panic_sites_focus"] = sorted(ctx.focus)
+    res.count("S_panic_sites_compared", ps.get("n_current", 0))
     res.rule = ("L1a: every string up to length %d over A14=%r and up to length %d over B14=%r (+ random 5..12) through "
                 "line_to_cmds, parse_line, is_arithmetic (model = impl), the real do_expansion + from_line, then model planner + "
                 "first-word look-ups on the implementation's tokens = implementation; outcome enum {line, PANIC, HANG, CRASH}. "
@@ -770,7 +884,9 @@ def run(ctx, res):
         lb = all_strings(B14, n1 - 1)
         # random longer lines stay inside ONE alphabet: A14 can create files (`$(a > x)`), B14 can glob them; mixing
         # the two makes the result depend on what a parallel shard has just created in the shared scratch cwd
-        for _ in range(20000 if ctx.thorough else 1000):
+        if big(ctx, "expand") and not ctx.thorough:
+            lb = all_strings(B14, n1)             # directed: the expansion passes on every B14 string up to 4
+        for _ in range(20000 if big(ctx, "expand") else 1000):
             al = rng.choice([A14, B14])
             (la if al is A14 else lb).append("".join(rng.choice(al) for _ in range(rng.randint(5, 12))))
         tm = {}
@@ -783,9 +899,15 @@ def run(ctx, res):
         layer1a(ctx, res, vv, lb, "B14")
         os.chdir(work)
         tm["L1a_B14"] = round(time.time() - t0, 1); t0 = time.time()
-        hl = all_strings(HL12, n1)
+        hl = all_strings(HL12, 5 if big(ctx, "hl") else n1)
         layer1b(ctx, res, vv, hl + all_strings(A14, 4) + lb)
         tm["L1b"] = round(time.time() - t0, 1); t0 = time.time()
+        if "tok" in ctx.focus:
+            layer_front(ctx, res, vv, all_strings(A14, 5) + all_strings(HL12, 5) + all_strings(B14, 4), "tok")
+            tm["L1f"] = round(time.time() - t0, 1); t0 = time.time()
+        if "calc" in ctx.focus:
+            layer_calc(ctx, res, vv)
+            tm["L1g"] = round(time.time() - t0, 1); t0 = time.time()
         layer1c(ctx, res, vv)
         tm["L1c"] = round(time.time() - t0, 1); t0 = time.time()
         cwd_d = os.path.join(work, "cwd_tok")
@@ -805,6 +927,25 @@ def run(ctx, res):
         layer3(ctx, res, vv, work)
         tm["L3"] = round(time.time() - t0, 1)
         res.extra["layer_seconds"] = tm
+        # ---- the panic-site tie (round 9)
+        found = [kw for l in vv.n.values() for kw in l if kw.get("failing_input", True)]
+        if ps["new"] or ps.get("error"):
+            res.extra["panic_sites_failing_input_found"] = bool(found)
+            for kw in found:
+                kw.setdefault("new_panic_sites", ["%s %s [%s] %s" % (d["file"], d["function"], d["kind"], d["expr"]) for d in ps["new"]][:12])
+        if not found:
+            if ps.get("error"):
+                res.violate(layer="sites", kind="tie", failing_input=False, problem=ps["error"],
+                            note="tools/panicsites.py cannot read an anchored source file any more: which sites can panic is "
+                                 "unknown; all directed searches ran and found no failing input")
+            for d in ps["new"][:6]:
+                res.violate(layer="sites", kind="tie", failing_input=False, site=d, searched=sorted(ctx.focus),
+                            n_new_sites=len(ps["new"]),
+                            note="a potentially panicking site (or a guard / bound / regex of one) that is not in "
+                                 "pins/C05-panicsites.json: %s in %s of %s -- no model definition, guard argument or layer is "
+                                 "recorded for it, so C05 is no longer shown to hold there; the directed searches %s found no "
+                                 "failing input. If the site is safe, re-pin it with a disposition (tools/panicsites_annotate.py)"
+                                 % (d["expr"], d["function"], d["file"], sorted(ctx.focus)))
         res.exhaustive = True
     finally:
         vv.flush()
